@@ -133,3 +133,11 @@ _p('C18', secs=(30, 480), runs=(100000, 10000000), mix=(4, 8),
     real=_SESS_REAL + ['Session::handle_resend_request / retrans_callback', 'Persister::get(from,to,callback) of both persisters'], stub=_SESS_STUB, assumptions=_SESS_ASSUME,
     level_text='seeded exploration of stores x ranges; oracle: ascending order, every stored application message of the range replayed exactly once with PossDupFlag, original number, OrigSendingTime and body, every gap covered by a GapFill numbered with the first number of the gap, continuation from the last NewSeqNo announced, invalid ranges rejected',
     level_note='trusted: harness record of sent messages (parsed from the wire); a NewSeqNo larger than "the number after the gap" is tolerated only if it skips no stored message and does not exceed the session\'s next number; requests starting beyond the highest number sent are not generated')
+
+_p('C19', secs=(30, 480), runs=(100000, 10000000), mix=(4, 8),
+    title='Inbound messages reach the application only when in sequence',
+    technique='deterministic simulation: a real session in every reachable state (before logon, continuous, resend pending, test request pending) receives one seeded inbound message at a time over the simulated socket; each is judged against the session\'s expected number read at the quiescent point just before, with MsgSeqNum taken from the real tag 34 by the independent codec',
+    rule='one evaluation = one seeded history of 1-10 (thorough 1-24) ops: inbound application messages with MsgSeqNum = expected-5..+5, PossDupFlag absent/N/Y, OrigSendingTime absent/earlier/equal/later, right/wrong CompIDs (enforcement on/off), undecodable variants (bad CheckSum, missing mandatory field), header values containing the text "34=" before or after tag 34 (both header orders), interleaved with peer admin messages, gap fills, silences (supervision states) and application sends; non-trivial = at least one inbound application message judged; distinct = distinct event-log hash',
+    real=_SESS_REAL + ['Session::process / enforce / sequence_check / compid_check'], stub=_SESS_STUB, assumptions=_SESS_ASSUME + ['decode strictness itself (unknown tags, malformed values) belongs to the codec properties, which are not claimed: only bad CheckSum and a missing mandatory field are used as undecodable inputs'],
+    level_text='seeded exploration; oracle per message: delivered only if in sequence or lower with PossDupFlag=Y and OrigSendingTime not after SendingTime; higher => not delivered, ResendRequest from the expected number (unless one is pending), session not ended; lower without PossDup or wrong CompIDs under enforcement => Logout on the wire and session ended; undecodable => never delivered and Reject or Logout',
+    level_note='trusted: harness codec; violation classes are kept separate so one finding does not mask another')
